@@ -39,7 +39,9 @@ def env(extra: bool):
         _envs[extra] = drv.make_env({"extra": extra}, loader=DictLoader({"p": "x", "base": "{% block b %}{% endblock %}"}))
         # what is registered is read once, when the environment is made: the oracle must not follow the register if parsing or analysing
         # ever writes to it (the same environment serves every case, so such a write would make later cases blind)
-        _REGISTERED[extra] = frozenset(_envs[extra].tags)
+        # (text, output statements and illegal tags are registered under the names of their token kinds: no markup can select them, so a
+        # tag *named* content / output / illegal is as unknown as any other)
+        _REGISTERED[extra] = frozenset(_envs[extra].tags) - {"content", "output", "illegal"}
         _BLOCK_TAGS[extra] = frozenset(t.name for t in _envs[extra].tags.values() if t.block and t.name not in ("comment", "doc", "content", "illegal", "output"))
     return _envs[extra]
 
@@ -66,6 +68,7 @@ TOKENS = {
     "block": "{% block b %}", "endblock": "{% endblock %}", "translate": "{% translate %}", "plural": "{% plural %}", "endtranslate": "{% endtranslate %}",
     "text": "t", "out": "{{ a }}",
 }
+HAND_PSEUDO = ["{% illegal %}", "{% content %}", "{% output %}", "{% if a %}{% output x %}{% endif %}", "{{ a }}{% content %}t"]
 CORE = ["if", "elsif", "else", "endif", "for", "endfor", "break", "case", "when", "endcase", "unless", "endunless", "nosuch", "endnosuch", "assign", "text", "commentx", "endcomment", "endassign"]
 ALL = [k for k in TOKENS]
 EXTRA_ONLY = {"with", "endwith", "macro", "endmacro", "call", "block", "endblock", "translate", "plural", "endtranslate"}
@@ -226,7 +229,7 @@ def gen_valid(rng, extra: bool) -> dict[str, Any]:
     return {"source": tpl.print_nodes(nodes, tpl.Style(wc=0.1), rng), "extra": extra}
 
 
-HAND = [
+HAND = HAND_PSEUDO + [
     "{% for i in xs %}{{ i }}{% else %}none{% endfor %}", "{% case a %}{% when 1 %}x{% else %}y{% endcase %}", "{% endif %}", "{% endfor %}{% if a %}{% endif %}",
     "{% if a %}{% for i in xs %}{% else %}{% endfor %}{% else %}{% endif %}", "{% tablerow i in xs %}{% endtablerow %}", "{% unless a %}{% else %}{% endunless %}",
     "{% liquid\nif a\necho 1\nendif\n%}", "{% raw %}{% if %}{% endraw %}", "{% comment %}{% if %}{% endcomment %}", "{% doc %}x{% enddoc %}",
